@@ -1,0 +1,58 @@
+//go:build verif
+
+// Contract for the ECDSA signer of this curve (comment-only; installed by /verif/gcv gen-contracts); conventions as in
+// zz_verif_contracts_ecdsa.go.
+
+package ecdsa
+
+// Sign (SEC 1, 4.1.3). The nonce generator, the base-point multiplication and HashToInt are opaque calls captured at
+// the call site; the signing equation itself is under contract: a signature is returned only if
+//   r = x(P) mod n with P the result of the base-point multiplication called on the drawn nonce k, r != 0,
+//   s = k^-1 (m + r d) mod n, s != 0, with d the integer held by the private key and m the value HashToInt returned
+//   on the message itself (no hash function given) or on the digest that the hash function returned (otherwise),
+// and the returned bytes are those of (r, s).
+
+//@ func Signature.Bytes
+//@ layer bigint big.Int
+//@ option field fr
+//@ option inline
+//@ end
+
+//@ func PrivateKey.Sign
+//@ layer bigint big.Int ring fp.Element
+//@ option field fr
+//@ option split-post
+//@ option nomerge
+//@ option opaque HashToInt ScalarMultiplicationBase nonce randFieldElement
+//@ ghost k = 0
+//@ ghost kp = 0
+//@ ghost px = 0
+//@ ghost m = 0
+//@ ghost onmsg = false
+//@ ghost ondigest = false
+//@ ghost rr = 0
+//@ ghost ss = 0
+//@ loop 0
+//@ + invariant[outer] true
+//@ loop 1
+//@ + invariant[inner] true
+//@ cut after call randFieldElement #1
+//@ + ghost k = *callresult0
+//@ cut after call ScalarMultiplicationBase #1
+//@ + ghost kp = *callarg1
+//@ + ghost px = callarg0.X
+//@ cut before call HashToInt #1
+//@ + ghost onmsg = same(callarg0, message)
+//@ + ghost ondigest = same(callarg0, resultof_Sum)
+//@ cut after call HashToInt #1
+//@ + ghost m = *callresult
+//@ cut before call Bytes #1
+//@ + ghost rr = be(callarg0.R)
+//@ + ghost ss = be(callarg0.S)
+//@ ensures[range] isnil(result1) ==> 0 < rr && rr < q && 0 < ss && ss < q
+//@ ensures[nonce] isnil(result1) ==> kp == k
+//@ ensures[r] isnil(result1) ==> rr == bigmod(toint(px), q) && rr != 0
+//@ ensures[hashed] isnil(result1) ==> (isnil(hFunc) ==> onmsg) && (!isnil(hFunc) ==> ondigest)
+//@ ensures[s] isnil(result1) ==> ss == bigmod(bigmodinv(k, q) * (m + rr * be(privKey.scalar[0:sizeFr])), q) && ss != 0
+//@ modifies nothing
+//@ end
